@@ -187,7 +187,8 @@ Lemma c_status_some_cases cfg now futs f :
   (exists x v e u, c_get futs f = Some x /\ c_fdone x = Some (v, e, u) /\
      ((now - u < c_expire cfg e /\ c_status cfg now futs (Some f) = CGood) \/
       (c_expire cfg e <= now - u < 2 * c_expire cfg e /\ c_status cfg now futs (Some f) = CExpired) \/
-      (2 * c_expire cfg e <= now - u /\ c_status cfg now futs (Some f) = CRotted))).
+      ((c_expire cfg e <= now - u /\ 2 * c_expire cfg e <= now - u) /\
+       c_status cfg now futs (Some f) = CRotted))).
 Proof.
   destruct (c_get futs f) as [x|] eqn:Hg.
   - right. destruct (c_fdone x) as [[[v e] u]|] eqn:Hd.
@@ -672,4 +673,390 @@ Proof.
   replace (2 ^ n - 1) with (Z.ones n) by (rewrite Z.ones_equiv; lia).
   rewrite Z.land_ones by exact Hn. split; [|reflexivity].
   apply Z.mod_pos_bound. apply Z.pow_pos_nonneg; lia.
+Qed.
+
+(* ================================================================== C05 *)
+Lemma c_fresh_served cfg evs k f x v e u :
+  let s := c_run cfg c_init evs in
+  c_lookup (c_map s) k = Some f -> c_get (c_futs s) f = Some x ->
+  c_fdone x = Some (v, e, u) -> c_now s - u < c_expire cfg e ->
+  c_step cfg s (CLoad k) = (s, OLoad f false) /\ c_get2 cfg s k = OAwait f.
+Proof.
+  intros s Hl Hx Hd Hage. split.
+  - destruct (c_single_flight cfg evs) as [_ [_ [_ [_ [_ [_ H]]]]]]. eapply H; eauto.
+  - assert (I : c_inv cfg s) by apply c_inv_reachable.
+    unfold c_get2. rewrite Hl. rewrite (c_status_done cfg _ _ f x v e u Hx Hd).
+    assert (H : c_now s - u <? c_expire cfg e = true) by lia. rewrite H.
+    rewrite (c_fetch_no_pred cfg _ _ f x Hx (c_done_no_pred cfg s f x _ I Hx Hd)). reflexivity.
+Qed.
+
+Lemma c_stale_first cfg evs k f x v e u :
+  let s := c_run cfg c_init evs in
+  c_lookup (c_map s) k = Some f -> c_get (c_futs s) f = Some x ->
+  c_fdone x = Some (v, e, u) -> c_expire cfg e <= c_now s - u < 2 * c_expire cfg e ->
+  c_step cfg s (CLoad k) = (c_new_job s k (Some f), OLoad f true) /\
+  c_get2 cfg s k = OAwait f /\
+  let s1 := c_new_job s k (Some f) in
+  c_lookup (c_map s1) k = Some (length (c_futs s)) /\
+  c_get (c_futs s1) (length (c_futs s)) = Some {| c_fkey := k; c_fdone := None; c_fpred := Some f |} /\
+  c_queue s1 = c_queue s ++ [length (c_futs s)] /\ c_running s1 = c_running s.
+Proof.
+  intros s Hl Hx Hd Hage.
+  assert (Hst : c_status cfg (c_now s) (c_futs s) (Some f) = CExpired).
+  { rewrite (c_status_done cfg _ _ f x v e u Hx Hd).
+    assert (H1 : c_now s - u <? c_expire cfg e = false) by lia.
+    assert (H2 : c_now s - u <? 2 * c_expire cfg e = true) by lia. rewrite H1, H2. reflexivity. }
+  split; [|split].
+  - cbn [c_step]. unfold c_load. rewrite Hl, Hst. reflexivity.
+  - unfold c_get2. rewrite Hl, Hst. reflexivity.
+  - cbn [c_new_job c_map c_futs c_queue c_running]. rewrite c_lookup_update, Z.eqb_refl.
+    split; [reflexivity|]. split; [apply c_get_app_new|]. split; reflexivity.
+Qed.
+
+Lemma c_stale_during_refresh cfg evs k g y f x v e u :
+  let s := c_run cfg c_init evs in
+  c_lookup (c_map s) k = Some g -> c_get (c_futs s) g = Some y -> c_fdone y = None ->
+  c_fpred y = Some f -> c_get (c_futs s) f = Some x -> c_fdone x = Some (v, e, u) ->
+  c_expire cfg e <= c_now s - u /\
+  (c_now s - u < 2 * c_expire cfg e ->
+     c_step cfg s (CLoad k) = (s, OLoad f false) /\ c_get2 cfg s k = OAwait f) /\
+  (2 * c_expire cfg e <= c_now s - u ->
+     c_step cfg s (CLoad k) = (s, OLoad g false) /\ c_get2 cfg s k = OAwait g).
+Proof.
+  intros s Hl Hy Hdy Hp Hx Hd. assert (I : c_inv cfg s) by apply c_inv_reachable.
+  destruct (ci_pred _ _ I g y f Hy Hp) as [_ [x' [v' [e' [u' [Hx' [_ [Hd' Hage]]]]]]]].
+  assert (x' = x) by congruence. subst x'. assert (Heq : (v', e', u') = (v, e, u)) by congruence.
+  inversion Heq; subst v' e' u'. clear Heq Hd' Hx'.
+  assert (Hg : c_status cfg (c_now s) (c_futs s) (Some g) = CGood) by (eapply c_status_loading; eauto).
+  assert (H1 : c_now s - u <? c_expire cfg e = false) by lia.
+  split; [exact Hage|]. split; intros Hb.
+  - assert (H2 : c_now s - u <? 2 * c_expire cfg e = true) by lia.
+    assert (Hf : c_fetch cfg (c_now s) (c_futs s) g = f).
+    { unfold c_fetch. rewrite Hy, Hp. rewrite (c_status_done cfg _ _ f x v e u Hx Hd), H1, H2. reflexivity. }
+    split.
+    + cbn [c_step]. unfold c_load. rewrite Hl, Hg, Hf. reflexivity.
+    + unfold c_get2. rewrite Hl, Hg, Hf. reflexivity.
+  - assert (H2 : c_now s - u <? 2 * c_expire cfg e = false) by lia.
+    assert (Hf : c_fetch cfg (c_now s) (c_futs s) g = g).
+    { unfold c_fetch. rewrite Hy, Hp. rewrite (c_status_done cfg _ _ f x v e u Hx Hd), H1, H2. reflexivity. }
+    split.
+    + cbn [c_step]. unfold c_load. rewrite Hl, Hg, Hf. reflexivity.
+    + unfold c_get2. rewrite Hl, Hg, Hf. reflexivity.
+Qed.
+
+Lemma c_expire_pos cfg e : c_cfg_ok cfg -> 0 < c_expire cfg e.
+Proof. intros [H1 H2]. unfold c_expire. destruct (e =? 0); lia. Qed.
+
+Lemma c_refresh_replaces cfg evs k i v e g s' :
+  c_cfg_ok cfg ->
+  let s := c_run cfg c_init evs in
+  c_lookup (c_map s) k = Some g ->
+  c_step cfg s (CFinish k i v e) = (s', OFinish g) ->
+  c_lookup (c_map s') k = Some g /\
+  c_get (c_futs s') g = Some {| c_fkey := k; c_fdone := Some (v, e, c_now s); c_fpred := None |} /\
+  c_step cfg s' (CLoad k) = (s', OLoad g false) /\ c_get2 cfg s' k = OAwait g.
+Proof.
+  intros Hok s Hl H. cbn [c_step] in H. unfold c_finish in H.
+  destruct (c_take_nth _ _ _) as [[g' r']|] eqn:Et; [|discriminate]. injection H as Hs' Hg. subst g'.
+  destruct (c_take_nth_spec _ _ _ _ _ Et) as [HP Hk]. destruct (c_key_is_spec _ _ _ Hk) as [x0 [Hg0 Hk0]].
+  set (X := {| c_fkey := k; c_fdone := Some (v, e, c_now s); c_fpred := None |}) in *.
+  assert (HX : c_get (c_futs s') g = Some X).
+  { subst s'. cbn [c_futs]. rewrite c_get_setfut by (eapply c_get_lt; eauto). rewrite Nat.eqb_refl. reflexivity. }
+  assert (Hm : c_map s' = c_map s) by (subst s'; reflexivity).
+  assert (Hnow : c_now s' = c_now s) by (subst s'; reflexivity).
+  assert (Hst : c_status cfg (c_now s') (c_futs s') (Some g) = CGood).
+  { rewrite (c_status_done cfg _ _ g X v e (c_now s) HX eq_refl). rewrite Hnow.
+    pose proof (c_expire_pos cfg e Hok). assert (Hlt : c_now s - c_now s <? c_expire cfg e = true) by lia.
+    rewrite Hlt. reflexivity. }
+  assert (Hf : c_fetch cfg (c_now s') (c_futs s') g = g) by (apply (c_fetch_no_pred cfg _ _ g X HX); reflexivity).
+  split; [rewrite Hm; exact Hl|]. split; [exact HX|]. split.
+  - cbn [c_step]. unfold c_load. rewrite Hm, Hl, Hst, Hf. reflexivity.
+  - unfold c_get2. rewrite Hm, Hl, Hst, Hf. reflexivity.
+Qed.
+
+(* a future the cache hands out is loading or younger than 2E *)
+Definition c_servable (cfg : c_cfg) (s : c_state) (f : nat) : Prop :=
+  exists x, c_get (c_futs s) f = Some x /\
+    match c_fdone x with
+    | None => True
+    | Some (v, e, u) => c_now s - u < 2 * c_expire cfg e
+    end.
+
+Lemma c_fetch_servable cfg s l :
+  c_cfg_ok cfg -> c_inv cfg s -> c_status cfg (c_now s) (c_futs s) (Some l) = CGood ->
+  c_servable cfg s (c_fetch cfg (c_now s) (c_futs s) l).
+Proof.
+  intros Hok I Hs. unfold c_fetch.
+  destruct (c_status_some_cases cfg (c_now s) (c_futs s) l) as [[_ H]|[[x [Hx [Hd _]]]|[x [v [e [u [Hx [Hd H]]]]]]]].
+  - congruence.
+  - rewrite Hx. destruct (c_fpred x) as [p|] eqn:Hp.
+    + destruct (c_status_some_cases cfg (c_now s) (c_futs s) p) as [[_ H]|[[y [Hy [Hdy H]]]|[y [v [e [u [Hy [Hdy H]]]]]]]].
+      * rewrite H. exists x. rewrite Hd. auto.
+      * rewrite H. exists x. rewrite Hd. auto.
+      * destruct H as [[_ H]|[[Hage H]|[_ H]]]; rewrite H.
+        -- exists x. rewrite Hd. auto.
+        -- exists y. rewrite Hdy. split; [exact Hy|lia].
+        -- exists x. rewrite Hd. auto.
+    + cbn. exists x. rewrite Hd. auto.
+  - rewrite Hx. rewrite (c_done_no_pred cfg s l x _ I Hx Hd). cbn. exists x. rewrite Hd. split; [exact Hx|].
+    pose proof (c_expire_pos cfg e Hok).
+    destruct H as [[Hage _]|[[_ H]|[_ H]]]; [lia|congruence|congruence].
+Qed.
+
+Lemma c_never_serves_rotted cfg evs :
+  c_cfg_ok cfg ->
+  let s := c_run cfg c_init evs in
+  (forall k s' f c, c_step cfg s (CLoad k) = (s', OLoad f c) -> c_servable cfg s' f) /\
+  (forall k f, c_get2 cfg s k = OAwait f -> c_servable cfg s f) /\
+  (forall k, c_get2 cfg s k = OImmediate <->
+     (c_lookup (c_map s) k = None \/
+      exists f x v e u, c_lookup (c_map s) k = Some f /\ c_get (c_futs s) f = Some x /\
+        c_fdone x = Some (v, e, u) /\ 2 * c_expire cfg e <= c_now s - u)).
+Proof.
+  intros Hok s. assert (I : c_inv cfg s) by apply c_inv_reachable. split; [|split].
+  - intros k s' f c H. cbn [c_step] in H.
+    destruct (c_load_cases cfg s k) as [[Hs E]|[[Hs E]|[Hs E]]]; rewrite E in H; inversion H; subst; clear H.
+    + destruct (c_lookup (c_map s) k) as [l|] eqn:Hl; [|cbn in Hs; discriminate].
+      apply c_fetch_servable; auto.
+    + destruct (c_lookup (c_map s) k) as [l|] eqn:Hl; [|cbn in Hs; discriminate].
+      destruct (c_status_some_cases cfg (c_now s) (c_futs s) l) as [[_ H]|[[x [Hx [Hd H]]]|[x [v [e [u [Hx [Hd H]]]]]]]]; try congruence.
+      exists x. cbn [c_new_job c_futs c_now]. split; [apply c_get_app_old; exact Hx|]. rewrite Hd.
+      destruct H as [[_ H]|[[Hage _]|[_ H]]]; [congruence|lia|congruence].
+    + eexists. cbn [c_new_job c_futs]. split; [apply c_get_app_new|]. cbn. exact Logic.I.
+  - intros k f H. unfold c_get2 in H. destruct (c_lookup (c_map s) k) as [l|] eqn:Hl.
+    2:{ destruct (c_status cfg (c_now s) (c_futs s) None); discriminate. }
+    destruct (c_status cfg (c_now s) (c_futs s) (Some l)) eqn:Hs; try discriminate; inversion H; subst.
+    + apply c_fetch_servable; auto.
+    + destruct (c_status_some_cases cfg (c_now s) (c_futs s) f) as [[_ H1]|[[x [Hx [Hd H1]]]|[x [v [e [u [Hx [Hd H1]]]]]]]]; try congruence.
+      exists x. split; [exact Hx|]. rewrite Hd.
+      destruct H1 as [[_ H1]|[[Hage _]|[_ H1]]]; [congruence|lia|congruence].
+  - intros k. unfold c_get2. destruct (c_lookup (c_map s) k) as [l|] eqn:Hl.
+    + destruct (ci_map_wf _ _ I k l Hl) as [x0 [Hx0 _]].
+      destruct (c_status_some_cases cfg (c_now s) (c_futs s) l) as [[H0 H1]|[[x [Hx [Hd H1]]]|[x [v [e [u [Hx [Hd H1]]]]]]]].
+      * congruence.
+      * rewrite H1. split; [discriminate|]. intros [H|[f [x' [v [e [u [Hf [Hx' [Hd' _]]]]]]]]]; [discriminate|].
+        inversion Hf; subst f. congruence.
+      * destruct H1 as [[Hage H1]|[[Hage H1]|[Hage H1]]]; rewrite H1.
+        -- split; [discriminate|]. intros [H|[f [x' [v' [e' [u' [Hf [Hx' [Hd' Hr]]]]]]]]]; [discriminate|].
+           inversion Hf; subst f. assert (x' = x) by congruence. subst x'.
+           assert (Heq : (v', e', u') = (v, e, u)) by congruence. inversion Heq; subst.
+           pose proof (c_expire_pos cfg e Hok). lia.
+        -- split; [discriminate|]. intros [H|[f [x' [v' [e' [u' [Hf [Hx' [Hd' Hr]]]]]]]]]; [discriminate|].
+           inversion Hf; subst f. assert (x' = x) by congruence. subst x'.
+           assert (Heq : (v', e', u') = (v, e, u)) by congruence. inversion Heq; subst. lia.
+        -- split; [|reflexivity]. intros _. right. exists l, x, v, e, u. repeat split; auto; lia.
+    + cbn. split; [|reflexivity]. intros _. left. reflexivity.
+Qed.
+
+(* ------------------------------------------------------------------ the sweep is unobservable *)
+Lemma c_is_rotted_spec cfg now futs f :
+  c_is_rotted cfg now futs f = true <->
+  exists x v e u, c_get futs f = Some x /\ c_fdone x = Some (v, e, u) /\
+    c_expire cfg e <= now - u /\ 2 * c_expire cfg e <= now - u.
+Proof.
+  unfold c_is_rotted.
+  destruct (c_status_some_cases cfg now futs f) as [[H0 H]|[[x [Hx [Hd H]]]|[x [v [e [u [Hx [Hd H]]]]]]]].
+  - rewrite H. split; [discriminate|]. intros [x [v [e [u [Hx _]]]]]. congruence.
+  - rewrite H. split; [discriminate|]. intros [x' [v [e [u [Hx' [Hd' _]]]]]]. congruence.
+  - destruct H as [[Hage H]|[[Hage H]|[Hage H]]]; rewrite H.
+    + split; [discriminate|]. intros [x' [v' [e' [u' [Hx' [Hd' Hr]]]]]]. assert (x' = x) by congruence. subst.
+      assert (Heq : (v', e', u') = (v, e, u)) by congruence. inversion Heq; subst. lia.
+    + split; [discriminate|]. intros [x' [v' [e' [u' [Hx' [Hd' Hr]]]]]]. assert (x' = x) by congruence. subst.
+      assert (Heq : (v', e', u') = (v, e, u)) by congruence. inversion Heq; subst. lia.
+    + split; [|reflexivity]. intros _. exists x, v, e, u. repeat split; auto; lia.
+Qed.
+
+Definition c_msim (cfg : c_cfg) (now : Z) (futs : list c_fut) (m1 m2 : list (Z * nat)) : Prop :=
+  forall k, c_lookup m1 k = c_lookup m2 k \/
+            (c_lookup m1 k = None /\ exists f, c_lookup m2 k = Some f /\ c_is_rotted cfg now futs f = true).
+
+Definition c_sim (cfg : c_cfg) (s1 s2 : c_state) : Prop :=
+  c_now s1 = c_now s2 /\ c_futs s1 = c_futs s2 /\ c_queue s1 = c_queue s2 /\
+  c_running s1 = c_running s2 /\ c_displaced s1 = c_displaced s2 /\
+  c_msim cfg (c_now s1) (c_futs s1) (c_map s1) (c_map s2).
+
+Lemma c_msim_mono cfg now futs now' futs' m1 m2 :
+  (forall f, c_is_rotted cfg now futs f = true -> c_is_rotted cfg now' futs' f = true) ->
+  c_msim cfg now futs m1 m2 -> c_msim cfg now' futs' m1 m2.
+Proof.
+  intros Hm H k. destruct (H k) as [E|[E [f [Hf Hr]]]]; [left; exact E|right].
+  split; [exact E|]. exists f. auto.
+Qed.
+
+Lemma c_msim_update cfg now futs m1 m2 k f :
+  c_msim cfg now futs m1 m2 -> c_msim cfg now futs (c_update m1 k f) (c_update m2 k f).
+Proof.
+  intros H k'. rewrite !c_lookup_update. destruct (k =? k'); [left; reflexivity|apply H].
+Qed.
+
+Lemma c_msim_filter cfg now futs m1 m2 :
+  NoDup (map fst m1) -> NoDup (map fst m2) -> c_msim cfg now futs m1 m2 ->
+  c_msim cfg now futs
+    (filter (fun kf => negb (c_is_rotted cfg now futs (snd kf))) m1)
+    (filter (fun kf => negb (c_is_rotted cfg now futs (snd kf))) m2).
+Proof.
+  intros N1 N2 H k. left.
+  rewrite (c_lookup_filter (fun f => negb (c_is_rotted cfg now futs f))) by exact N1.
+  rewrite (c_lookup_filter (fun f => negb (c_is_rotted cfg now futs f))) by exact N2.
+  destruct (H k) as [E|[E [f [Hf Hr]]]].
+  - rewrite E. reflexivity.
+  - rewrite E, Hf, Hr. reflexivity.
+Qed.
+
+Lemma c_rotted_app cfg now futs x f :
+  c_is_rotted cfg now futs f = true -> c_is_rotted cfg now (futs ++ [x]) f = true.
+Proof.
+  rewrite !c_is_rotted_spec. intros [y [v [e [u [Hy H]]]]]. exists y, v, e, u.
+  split; [apply c_get_app_old; exact Hy|exact H].
+Qed.
+
+Lemma c_msim_status cfg now futs m1 m2 k :
+  c_msim cfg now futs m1 m2 ->
+  c_lookup m1 k = c_lookup m2 k \/
+  (c_lookup m1 k = None /\ c_status cfg now futs (c_lookup m1 k) = CEmpty /\
+   exists f, c_lookup m2 k = Some f /\ c_status cfg now futs (c_lookup m2 k) = CRotted /\
+             c_is_loading futs f = false).
+Proof.
+  intros H. destruct (H k) as [E|[E [f [Hf Hr]]]]; [left; exact E|right].
+  split; [exact E|]. split; [rewrite E; reflexivity|]. exists f. split; [exact Hf|]. split.
+  - rewrite Hf. unfold c_is_rotted in Hr. destruct (c_status cfg now futs (Some f)); try discriminate. reflexivity.
+  - apply c_is_rotted_spec in Hr. destruct Hr as [x [v [e [u [Hx [Hd _]]]]]].
+    unfold c_is_loading. rewrite Hx, Hd. reflexivity.
+Qed.
+
+Lemma c_sim_step cfg s1 s2 ev :
+  c_inv cfg s1 -> c_inv cfg s2 -> c_sim cfg s1 s2 ->
+  snd (c_step cfg s1 ev) = snd (c_step cfg s2 ev) /\
+  c_sim cfg (fst (c_step cfg s1 ev)) (fst (c_step cfg s2 ev)).
+Proof.
+  intros I1 I2 Hsim.
+  destruct s1 as [n1 fu1 m1 q1 r1 d1]. destruct s2 as [n2 fu2 m2 q2 r2 d2].
+  destruct Hsim as (Hn & Hf & Hq & Hr & Hd & HM). cbn in Hn, Hf, Hq, Hr, Hd, HM. subst n2 fu2 q2 r2 d2.
+  destruct ev as [k|k|k v e|k|k i v e| |dt]; cbn [c_step].
+  - (* Load *)
+    unfold c_load. cbn [c_now c_futs c_map].
+    destruct (c_msim_status cfg n1 fu1 m1 m2 k HM) as [E|[E [S1 [f [Hf [S2 _]]]]]].
+    + rewrite E. destruct (c_status cfg n1 fu1 (c_lookup m2 k)); cbn [fst snd].
+      * split; [reflexivity|]. unfold c_sim, c_new_job; cbn. repeat split; auto.
+        apply c_msim_update. eapply c_msim_mono; [|exact HM]. intros; apply c_rotted_app; auto.
+      * split; [reflexivity|]. unfold c_sim; cbn. repeat split; auto.
+      * split; [reflexivity|]. unfold c_sim, c_new_job; cbn. repeat split; auto.
+        apply c_msim_update. eapply c_msim_mono; [|exact HM]. intros; apply c_rotted_app; auto.
+      * split; [reflexivity|]. unfold c_sim, c_new_job; cbn. repeat split; auto.
+        apply c_msim_update. eapply c_msim_mono; [|exact HM]. intros; apply c_rotted_app; auto.
+    + rewrite S1, S2. cbn [fst snd]. split; [reflexivity|]. unfold c_sim, c_new_job; cbn. repeat split; auto.
+      apply c_msim_update. eapply c_msim_mono; [|exact HM]. intros; apply c_rotted_app; auto.
+  - (* Get2 *)
+    cbn [fst snd]. split; [|unfold c_sim; cbn; repeat split; auto].
+    unfold c_get2. cbn [c_now c_futs c_map].
+    destruct (c_msim_status cfg n1 fu1 m1 m2 k HM) as [E|[E [S1 [f [Hf [S2 _]]]]]].
+    + rewrite E. reflexivity.
+    + rewrite S1, S2. reflexivity.
+  - (* Set *)
+    cbn [fst snd]. split; [reflexivity|]. unfold c_sim, c_set; cbn. repeat split; auto.
+    + destruct (c_msim_status cfg n1 fu1 m1 m2 k HM) as [E|[E [S1 [f [Hf [S2 Hl]]]]]].
+      * rewrite E. reflexivity.
+      * rewrite E, Hf, Hl. reflexivity.
+    + apply c_msim_update. eapply c_msim_mono; [|exact HM]. intros; apply c_rotted_app; auto.
+  - (* Start *)
+    unfold c_start. cbn [c_futs c_queue].
+    destruct (c_take_first (c_key_is fu1 k) q1) as [[f q']|]; cbn [fst snd].
+    + split; [reflexivity|]. unfold c_sim; cbn. repeat split; auto.
+    + split; [reflexivity|]. unfold c_sim; cbn. repeat split; auto.
+  - (* Finish *)
+    unfold c_finish. cbn [c_futs c_running].
+    destruct (c_take_nth (c_key_is fu1 k) i r1) as [[f r']|] eqn:Et; cbn [fst snd].
+    2:{ split; [reflexivity|]. unfold c_sim; cbn. repeat split; auto. }
+    split; [reflexivity|]. unfold c_sim; cbn. repeat split; auto.
+    destruct (c_take_nth_spec _ _ _ _ _ Et) as [HP Hk]. destruct (c_key_is_spec _ _ _ Hk) as [x0 [Hg0 Hk0]].
+    assert (Hl : c_isload fu1 f).
+    { apply (ci_jobs _ _ I1). cbn. apply in_or_app. right.
+      eapply Permutation_in; [apply Permutation_sym; exact HP|left; reflexivity]. }
+    eapply c_msim_mono; [|exact HM]. intros g Hg. apply c_is_rotted_spec in Hg. apply c_is_rotted_spec.
+    destruct Hg as [y [v' [e' [u' [Hy [Hdy Hage]]]]]]. exists y, v', e', u'. split; [|auto].
+    rewrite c_get_setfut by (eapply c_get_lt; eauto). destruct (Nat.eqb g f) eqn:E; [|exact Hy].
+    apply Nat.eqb_eq in E. subst g. destruct Hl as [z [Hz Hdz]]. congruence.
+  - (* Sweep *)
+    cbn [fst snd]. split; [reflexivity|]. unfold c_sim, c_sweep; cbn. repeat split; auto.
+    apply c_msim_filter; [exact (ci_keys _ _ I1)|exact (ci_keys _ _ I2)|exact HM].
+  - (* Advance *)
+    destruct (dt <? 0) eqn:E; cbn [fst snd].
+    + split; [reflexivity|]. unfold c_sim; cbn. repeat split; auto.
+    + split; [reflexivity|]. unfold c_sim; cbn. repeat split; auto.
+      eapply c_msim_mono; [|exact HM]. intros g Hg. apply c_is_rotted_spec in Hg. apply c_is_rotted_spec.
+      destruct Hg as [y [v' [e' [u' [Hy [Hdy Hage]]]]]]. exists y, v', e', u'. repeat split; auto; lia.
+Qed.
+
+Lemma c_sim_outputs cfg evs : forall s1 s2,
+  c_inv cfg s1 -> c_inv cfg s2 -> c_sim cfg s1 s2 ->
+  c_outputs cfg s1 evs = c_outputs cfg s2 evs.
+Proof.
+  induction evs as [|ev r IH]; intros s1 s2 I1 I2 Hsim; cbn [c_outputs]; [reflexivity|].
+  destruct (c_sim_step cfg s1 s2 ev I1 I2 Hsim) as [Ho Hs]. rewrite Ho. f_equal.
+  apply IH; auto using c_inv_step.
+Qed.
+
+Lemma c_sim_sweep cfg s : c_inv cfg s -> c_sim cfg (c_sweep cfg s) s.
+Proof.
+  intros I. unfold c_sim, c_sweep; cbn. repeat split; auto. intros k.
+  rewrite (c_lookup_filter (fun f => negb (c_is_rotted cfg (c_now s) (c_futs s) f))) by exact (ci_keys _ _ I).
+  destruct (c_lookup (c_map s) k) as [f|] eqn:E; [|left; reflexivity].
+  destruct (c_is_rotted cfg (c_now s) (c_futs s) f) eqn:Hr; cbn [negb].
+  - right. split; [reflexivity|]. exists f. auto.
+  - left. reflexivity.
+Qed.
+
+Lemma c_sweep_transparent cfg evs0 evs :
+  let s := c_run cfg c_init evs0 in
+  c_outputs cfg (c_sweep cfg s) evs = c_outputs cfg s evs.
+Proof.
+  intros s. assert (I : c_inv cfg s) by apply c_inv_reachable.
+  apply c_sim_outputs; [apply c_inv_sweep; exact I|exact I|apply c_sim_sweep; exact I].
+Qed.
+
+(* ------------------------------------------------------------------ results completed later carry later stamps *)
+Lemma c_run_app cfg a : forall s b, c_run cfg s (a ++ b) = c_run cfg (c_run cfg s a) b.
+Proof. induction a as [|ev r IH]; intros s b; cbn [c_run app]; [reflexivity|apply IH]. Qed.
+
+Lemma c_now_mono_step cfg s ev : c_now s <= c_now (fst (c_step cfg s ev)).
+Proof.
+  destruct ev as [k|k|k v e|k|k i v e| |dt]; cbn [c_step].
+  - destruct (c_load_cases cfg s k) as [[_ ->]|[[_ ->]|[_ ->]]]; cbn; lia.
+  - cbn; lia.
+  - cbn; lia.
+  - unfold c_start. destruct (c_take_first _ _) as [[g q']|]; cbn; lia.
+  - unfold c_finish. destruct (c_take_nth _ _ _) as [[g q']|]; cbn; lia.
+  - cbn; lia.
+  - destruct (dt <? 0) eqn:E; cbn; lia.
+Qed.
+
+Lemma c_completed_later cfg evs evs' :
+  let s := c_run cfg c_init evs in
+  let s' := c_run cfg c_init (evs ++ evs') in
+  c_now s <= c_now s' /\
+  forall f x' v e u, c_get (c_futs s') f = Some x' -> c_fdone x' = Some (v, e, u) ->
+    (exists x, c_get (c_futs s) f = Some x /\ c_fdone x = Some (v, e, u)) \/ c_now s <= u.
+Proof.
+  cbv zeta. induction evs' as [|ev l IH] using rev_ind.
+  - rewrite app_nil_r. split; [lia|]. intros f x' v e u Hx Hd. left. exists x'. auto.
+  - destruct IH as [Hn IH]. rewrite app_assoc, c_run_app. cbn [c_run].
+    split.
+    + pose proof (c_now_mono_step cfg (c_run cfg c_init (evs ++ l)) ev). lia.
+    + intros f x' v e u Hx Hd.
+      destruct (c_result_origin cfg (evs ++ l) ev f x' v e u Hx Hd) as [[x [Hx0 [Hd0 _]]]|[[i [x [_ [Hu _]]]]|[_ [Hu _]]]].
+      * eapply IH; eauto.
+      * right. lia.
+      * right. lia.
+Qed.
+
+Lemma c_loading_resolves_later cfg evs evs' f x' v e u :
+  let s := c_run cfg c_init evs in
+  let s' := c_run cfg s evs' in
+  (forall x, c_get (c_futs s) f = Some x -> c_fdone x = None) ->
+  c_get (c_futs s') f = Some x' -> c_fdone x' = Some (v, e, u) -> c_now s <= u.
+Proof.
+  intros s s' Hl Hx Hd. subst s s'. rewrite <- c_run_app in Hx.
+  destruct (c_completed_later cfg evs evs') as [_ H].
+  destruct (H f x' v e u Hx Hd) as [[x [Hx0 Hd0]]|Hle]; [|exact Hle].
+  specialize (Hl x Hx0). congruence.
 Qed.
